@@ -100,7 +100,7 @@ def mapping_writes(res):
 
 
 @rule("C09-Op2", "C09", 4, "map_mut_in: every write into the mapping happens either on the create_new path or after check_capacity and "
-      "sanity_check have succeeded (a refused open leaves the file's bytes untouched)", configs=MEMCFG)
+      "sanity_check have succeeded (a refused open leaves the file's bytes untouched)", configs=MEMCFG, also=("C05", "C06",))
 def op2(ctx):
     b = ctx.facts.one(r"^memory::Memory::<R, PR, H>::map_mut_in::\{closure#0\}$")
     ev, res = ctx.eval(b, no_inline=(r"::mlock$",))
